@@ -181,7 +181,8 @@ class Hist(object):
                 raise RuntimeError('fit raised: %r' % out)
             self.fitdata[m] = d
             for t in user_terms(model):
-                self.first_compile.setdefault(self.tid(t), (m, d))
+                if self.tid(t) is not None:
+                    self.first_compile.setdefault(self.tid(t), (m, d))
             self.ops.append('(Fit %d %d)' % (m, d))
             self.log.append('m%d.fit(data%d%s)' % (m, d, ', weights' if use_w else ''))
             return
@@ -300,12 +301,19 @@ def history_cases(res, rng, count, data):
         try:
             for _ in range(nsteps):
                 h.step()
-        except RuntimeError as e:
+        except Exception as e:
             res.violations.append(dict(what='public call raised in a valid history', finding=None, input=dict(history=h.log),
-                                       observed=str(e), expected='no exception'))
+                                       observed='%s: %s' % (type(e).__name__, e), expected='no exception'))
             continue
-        # models fitted with weights: refit unweighted comparison is meaningless -> make the fresh comparison weight-aware
-        obs = observe_with_weights(h)
+        try:
+            obs = observe_with_weights(h)
+            if any(i is None for o in obs for i in o[0]):
+                raise RuntimeError('a model holds term objects that are neither the caller\'s nor copies made by deepcopy/gridsearch')
+        except Exception as e:
+            res.violations.append(dict(what='observing the models after a valid history failed (the implementation left the behaviour '
+                                            'described by coq/Model/Heap.v)', finding=None, input=dict(history=h.log),
+                                       observed='%s: %s' % (type(e).__name__, e), expected='see coq/Model/Heap.v'))
+            continue
         cobs = coq_list(['(mkObs %s %s %d %s)' % (coq_list([str(i) for i in ids]),
                                                   coq_list(['None' if k is None else '(Some %d)' % k for k in kn]), d, coq_bool(fe))
                          for ids, kn, d, fe in obs])
@@ -347,8 +355,13 @@ def history_cases(res, rng, count, data):
             except Exception:
                 continue
             idx = [rng.randrange(len(Xq)) for _ in range(rng.randint(1, 9))] if rng.random() < 0.5 else rng.sample(range(len(Xq)), len(Xq))
-            P2 = model.predict(Xq[idx])
-            CI2 = model.confidence_intervals(Xq[idx])
+            try:
+                P2 = model.predict(Xq[idx])
+                CI2 = model.confidence_intervals(Xq[idx])
+            except Exception as e:
+                res.violations.append(dict(what='predict on a row subset raised although the full matrix was accepted', finding=None,
+                                           input=dict(history=h.log, model=m, rows=idx), observed=repr(e), expected='rows of the full prediction'))
+                continue
             res.case(('rowwise', hid, m))
             if not (np.allclose(P2, P[idx], rtol=1e-12, atol=1e-12) and np.allclose(CI2, CI[idx], rtol=1e-10, atol=1e-10)):
                 res.violations.append(dict(what='predictions are not row-wise', finding=None,
@@ -373,6 +386,9 @@ def observe_with_weights(h):
             anc = m
             used_w = last_fit_weights(h.log, m)
             # same settings as the model has NOW (a keep_best grid search changes lam), fresh term objects
+            if any(i is None for i in ids):
+                obs.append((ids, kn, d, False))
+                continue
             fresh = LinearGAM(TermList(*[new_term(h.specs[i][0], h.specs[i][1], list(t.lam), h.specs[i][3]) for i, t in zip(ids, ts)]))
             fresh.fit(X, y, weights=w if used_w is True else None)
             try:
@@ -504,7 +520,14 @@ def run(res):
                 'result. A history is non-trivial when it contains a fit; all generated histories do.')
     common.standard_prove(res, PROPS_FILE)
     data = make_data(res.seed % 1000)
-    direct_probes(res, data)
+    try:
+        direct_probes(res, data)
+    except Exception as e:
+        import traceback
+        res.violations.append(dict(what='a fixed-shape isolation probe raised (fit of a second model built from a term expression that '
+                                        'another model was fitted with, refit on other data, or keep_best grid search)', finding=None,
+                                   input=dict(probe='harness/props/c15.py direct_probes', trace=traceback.format_exc()[-600:]),
+                                   observed='%s: %s' % (type(e).__name__, e), expected='no exception'))
     cases, meta = history_cases(res, rng, 350 if quick else 4000, data)
     with common.CaseDir(PROP) as cd:
         failing, errors = common.run_bool_cases(cd, HEADER, cases, 'check_case', shard=60)
